@@ -255,7 +255,48 @@ pub fn c18_display_dual2vec1_hyperdualvec11_presence() {
     cover!(p1 && !p2 && p3);
 }
 
+
+/// every scalar type nested over Dual<Tok>: the inner number is rendered completely in every part
+#[cfg_attr(kani, kani::proof)]
+#[cfg_attr(kani, kani::unwind(24))]
+pub fn c18_display_nested_hyperdual_dual2() {
+    let l = [letter(), letter(), letter(), letter(), letter(), letter(), letter(), letter()];
+    let d = |i: usize| Dual::<Tok, f64>::new(Tok(l[i]), Tok(l[i + 1]));
+    let h: HyperDual<Dual<Tok, f64>, f64> = HyperDual::new(d(0), d(2), d(4), d(6));
+    let mut buf = Buf::new();
+    write!(buf, "{}", h).unwrap();
+    assert!(matches(&buf, &[
+        P::C(l[0]), P::L(" + "), P::C(l[1]), P::L("ε + "), P::C(l[2]), P::L(" + "), P::C(l[3]), P::L("εε1 + "),
+        P::C(l[4]), P::L(" + "), P::C(l[5]), P::L("εε2 + "), P::C(l[6]), P::L(" + "), P::C(l[7]), P::L("εε1ε2"),
+    ]));
+    let x: Dual2<Dual<Tok, f64>, f64> = Dual2::new(d(0), d(2), d(4));
+    let mut buf = Buf::new();
+    write!(buf, "{}", x).unwrap();
+    assert!(matches(&buf, &[
+        P::C(l[0]), P::L(" + "), P::C(l[1]), P::L("ε + "), P::C(l[2]), P::L(" + "), P::C(l[3]), P::L("εε1 + "),
+        P::C(l[4]), P::L(" + "), P::C(l[5]), P::L("εε1²"),
+    ]));
+    cover!(true);
+}
+
+#[cfg_attr(kani, kani::proof)]
+#[cfg_attr(kani, kani::unwind(24))]
+pub fn c18_display_nested_dual3() {
+    let l = [letter(), letter(), letter(), letter(), letter(), letter(), letter(), letter()];
+    let d = |i: usize| Dual::<Tok, f64>::new(Tok(l[i]), Tok(l[i + 1]));
+    let x: Dual3<Dual<Tok, f64>, f64> = Dual3::new(d(0), d(2), d(4), d(6));
+    let mut buf = Buf::new();
+    write!(buf, "{}", x).unwrap();
+    assert!(matches(&buf, &[
+        P::C(l[0]), P::L(" + "), P::C(l[1]), P::L("ε + "), P::C(l[2]), P::L(" + "), P::C(l[3]), P::L("εv1 + "),
+        P::C(l[4]), P::L(" + "), P::C(l[5]), P::L("εv2 + "), P::C(l[6]), P::L(" + "), P::C(l[7]), P::L("εv3"),
+    ]));
+    cover!(true);
+}
+
 pub const LIST: &[(&str, fn())] = &[
+    ("c18_display_nested_hyperdual_dual2", c18_display_nested_hyperdual_dual2),
+    ("c18_display_nested_dual3", c18_display_nested_dual3),
     ("c18_display_dual_dual2", c18_display_dual_dual2),
     ("c18_display_dual3_hyperdual", c18_display_dual3_hyperdual),
     ("c18_display_hyperhyperdual", c18_display_hyperhyperdual),
